@@ -74,6 +74,10 @@ def run(ctx):
             for mask in (b"\x00" + body, body + b"\x00", bytes(ml), b"\x00" * (ml - 1) + b"\x01", b"\x80" + body, body + b"\x80", b"\xff" * ml):
                 cases.append(("xor", (rng.randbytes(dl), mask[:ml])))
                 cases.append(("xor", (gens.special_bytes(rng, dl), mask[:ml])))
+    # data beyond any internal chunk size with short masks (the mask covers a prefix only)
+    for dl in (4096, 4097):
+        for ml in (1, 5, dl - 1, dl):
+            cases.append(("xor", (rng.randbytes(dl), rng.randbytes(ml))))
     # parity helper: all 16-bit values in thorough, sampled otherwise; sampled 32-bit
     vals = range(1 << 16) if ctx.thorough else list(range(0, 1 << 16, 97)) + list(range(512))
     for v in vals:
@@ -86,6 +90,7 @@ def run(ctx):
         for v in {(1 << k) - 1, 1 << k, (1 << k) + 1, ((1 << k) | 1), (0xFFFFFFFF >> k), (0xFFFFFFFF << k) & 0xFFFFFFFF}:
             if 0 <= v < (1 << 32):
                 cases.append(("odd_parity", (v,)))
+    cases = fw.with_history(rng, cases, gens.variants_generic(rng), fraction=0.02, limit=40)
     _res = fw.call_result(
         cases, check_impl=check_impl, nontrivial=lambda fn, a, o: o[0] == "OK",
         rule="all 256 byte values at key positions of 8/16/24-byte keys (every position in thorough), all 32 variants "
